@@ -240,11 +240,13 @@ class Program:
         # written are expanded at their call sites, new locals that only cache an attribute chain are removed
         from . import normalise
         trees = {rel: parse_module(src, rel) for mod, rel, src in pending}
+        self.inlined_constants = normalise.inline_new_constants(trees)
         self.expanded_helpers = normalise.expand_new_helpers(trees)
         self.propagated_aliases = normalise.propagate_new_aliases(trees)
         normalise.desugar_quantifiers(trees)
         self.comprehension_rewrites = normalise.comprehension_form(trees)
         normalise.inline_new_temporaries(trees)
+        normalise.thread_new_flags(trees)
         for mod, rel, src in pending:
             self.modules[mod] = ModuleInfo(mod, rel, src, trees[rel])
         for rel in self.overrides:
